@@ -183,7 +183,7 @@ def gated(prog) -> bool:
 
 def uses_c(prog) -> bool:
     """the script reads the run-time scalar c = p.read() at the top of every pass"""
-    return gated(prog) or any(s[0] in (12, 13, 16) for s in prog["body"])
+    return bool(prog.get("arm")) or gated(prog) or any(s[0] in (12, 13, 16) for s in prog["body"])
 
 
 def lines_of(prog):
@@ -1489,6 +1489,264 @@ def gen_exhaustive_parts(max_len, N):
 # running
 # --------------------------------------------------------------------------
 
+# --------------------------------------------------------------------------
+# sibling arms of ONE if / elif / else (try / except) statement in front of the main loop (coq/Device/DListArm.v, wire mode 3)
+# --------------------------------------------------------------------------
+
+ARM_FORMS = ["if-else", "if-elif-else", "if-elif-else", "if-elif", "try-except"]
+
+
+def arm_stmt_lines(s):
+    """an arm statement; the run-time scalar of setup code is c0 = p.read() (first reading, always 0)"""
+    return [re.sub(r"\bc\b", "c0", ln) for ln in stmt_lines(s)]
+
+
+def arm_lines(prog_arm):
+    """-> the source lines of the if / try statement"""
+    a = prog_arm
+    arms, k, form, sel = a["arms"], a["taken"], a["form"], a["sel"]
+    out = []
+    if form == "try-except":
+        heads = ["try:", "except Exception:"]
+    else:
+        heads = []
+        for j in range(len(arms)):
+            if form.endswith("else") and j == len(arms) - 1:
+                heads.append("else:")
+                continue
+            if sel == "mode":
+                cond = f"mode == {j}"
+            else:
+                cond = "c0 > 0" if j < k else ("c0 > -1" if j == k else "c0 > 5")
+            heads.append(("if " if j == 0 else "elif ") + cond + ":")
+    for h, arm in zip(heads, arms):
+        out.append(h)
+        body = [ln for s_ in arm for ln in arm_stmt_lines(s_)] or ["mon.write(0)"]
+        out += ["    " + ln for ln in body]
+    return out
+
+
+def arm_prog(a, N, pattern):
+    """a = {"pre", "arms", "taken", "form", "sel", "body"} -> program with literal lines (never batched: one sketch each)"""
+    head = ["from Reduino.Communication import SerialMonitor", "from Reduino.Sensors import Potentiometer",
+            "mon = SerialMonitor(9600)", 'p = Potentiometer("A0")']
+    setup = [ln for s_ in a["pre"] for ln in stmt_lines(s_)] + ["c0 = p.read()"]
+    if a["sel"] == "mode" and a["form"] != "try-except":
+        setup.append(f"mode = {a['taken']}")
+    setup += arm_lines(a)
+    body = ['mon.write("-")', "c = p.read()"] + [ln for s_ in a["body"] for ln in stmt_lines(s_)]
+    return {"lines": {"head": head, "setup": setup, "body": body}, "setup": [], "body": [], "N": N, "gates": [],
+            "gvals": [0] + list(pattern), "arm": a, "kind": "arm-" + a["form"]}
+
+
+def arm_wire(prog):
+    a = prog["arm"]
+    return [3, a["pre"], a["arms"], a["taken"], a["body"], list(prog["gvals"][1:])]
+
+
+def gen_arm_part(rng, N, pattern, form=None, focus=True):
+    """literal-initialised lists, constant appends / removes at top level, then ONE if / elif / else (or try / except) statement
+    whose arms append / remove CONSTANTS (rarely a run-time scalar: the name loses its copy) and read `x[len(y) + k]` / `x[k - len(y)]`
+    (target index boundary-heavy: last, first, -1, -len - valid for the list AS THE ARM ITSELF leaves it, i.e. valid under CPython
+    when that arm is the one taken), then a balanced main loop.  focus: an EARLIER arm changes the length of a list whose len() a LATER
+    arm folds, and that later arm is the one taken at run time."""
+    form = form or rng.choice(ARM_FORMS)
+    cs = sorted(set(pattern))
+    for _ in range(60):
+        base = {0: cs + [rng.choice([11, 12, 13]) for _ in range(rng.choice([0, 1, 2]))],
+                1: [rng.choice([21, 22, 23, 24]) for _ in range(rng.choice([1, 2, 3]))]}
+        rng.shuffle(base[0])
+        pre = [[0, 0, list(base[0])], [0, 1, list(base[1])]]
+        names = [0, 1]
+        if rng.random() < 0.3:
+            pre.append([1, 2, [0, rng.choice([1, 2, 3]), 1, 1, 0]])      # a comprehension list: no parse-time copy
+            base[2] = list(range(pre[-1][2][1]))
+            names.append(2)
+        for _ in range(rng.choice([0, 0, 1, 2])):
+            x = rng.choice([0, 1])
+            if rng.random() < 0.7:
+                v = rng.choice([31, 32, 33])
+                pre.append([3, x, v])
+                base[x].append(v)
+            else:
+                cand = [v for v in base[x] if v not in cs]
+                if cand and len(base[x]) > 1:
+                    v = rng.choice(cand)
+                    pre.append([4, x, v])
+                    base[x].remove(v)
+        n_arms = {"if-else": 2, "if-elif-else": 3, "if-elif": rng.choice([2, 3]), "try-except": 2}[form]
+        arms, finals, writes, reads = [], [], [], []
+        for j in range(n_arms):
+            cur = {x: list(v) for x, v in base.items()}
+            arm, wr, rd = [], set(), set()
+            for _ in range(rng.choice([0, 1, 1, 2, 3])):
+                x = rng.choice([0, 1])
+                r = rng.random()
+                if r < 0.6:
+                    v = rng.choice([41, 42, 43, 44])
+                    arm.append([3, x, v])
+                    cur[x].append(v)
+                elif r < 0.85:
+                    cand = [v for v in cur[x] if v not in cs]
+                    if not cand or len(cur[x]) < 2:
+                        continue
+                    v = rng.choice(cand)
+                    arm.append([4, x, v])
+                    cur[x].remove(v)
+                elif r < 0.95:
+                    off = rng.choice([51, 52])
+                    arm.append([12, x, off])
+                    cur[x].append(off)               # c0 = 0
+                else:
+                    cand = [v for v in cur[x] if v not in cs and v != 0]
+                    if not cand or len(cur[x]) < 2:
+                        continue
+                    v = rng.choice(cand)
+                    arm.append([13, x, v])
+                    cur[x].remove(v)
+                wr.add(x)
+            for _ in range(rng.choice([1, 1, 2, 3])):
+                x = rng.choice(names)
+                y = x if rng.random() < 0.75 else rng.choice(names)
+                nx, ny = len(cur[x]), len(cur[y])
+                if nx == 0:
+                    continue
+                sg = rng.random() < 0.75
+                target = rng.choice([nx - 1, nx - 1, nx - 1, 0, -1, -nx, rng.randrange(-nx, nx)])
+                k = target - ny if sg else target + ny
+                if not sg and k < 0:
+                    continue
+                arm.insert(rng.randint(0, len(arm)) if rng.random() < 0.3 else len(arm), [14, x, y, 1 if sg else 0, k])
+                rd.add(y)
+            if rng.random() < 0.3:
+                x = rng.choice(names)
+                if cur[x]:
+                    arm.append([5, x, gen_index(rng, len(cur[x]))])
+            arms.append(arm)
+            writes.append(wr)
+            reads.append(rd)
+        # reads placed in front of a mutation were computed against the final lengths: re-validate every arm under CPython's order
+        def arm_ok(arm):
+            cur = {x: list(v) for x, v in base.items()}
+            for s_ in arm:
+                if s_[0] == 3:
+                    cur[s_[1]].append(s_[2])
+                elif s_[0] == 4:
+                    if s_[2] not in cur[s_[1]]:
+                        return None
+                    cur[s_[1]].remove(s_[2])
+                elif s_[0] == 12:
+                    cur[s_[1]].append(s_[2])
+                elif s_[0] == 13:
+                    if s_[2] not in cur[s_[1]]:
+                        return None
+                    cur[s_[1]].remove(s_[2])
+                elif s_[0] == 14:
+                    i = len(cur[s_[2]]) + s_[4] if s_[3] else s_[4] - len(cur[s_[2]])
+                    if not -len(cur[s_[1]]) <= i < len(cur[s_[1]]):
+                        return None
+                elif s_[0] == 5:
+                    if not -len(cur[s_[1]]) <= s_[2] < len(cur[s_[1]]):
+                        return None
+            return cur
+        finals = [arm_ok(a_) for a_ in arms]
+        if any(f is None for f in finals):
+            continue
+        # the pairs (earlier arm writes x, later arm folds len(x))
+        pairs = [(i, j) for j in range(n_arms) for i in range(j) if writes[i] & reads[j]]
+        if form == "try-except":
+            taken = 0
+        elif focus:
+            if not pairs:
+                continue
+            taken = rng.choice(pairs)[1]
+        else:
+            taken = rng.randrange(n_arms)
+        if form == "if-elif" and rng.random() < 0.15 and not focus:
+            taken = n_arms           # no arm taken
+        cur = finals[taken] if taken < n_arms else {x: list(v) for x, v in base.items()}
+        # a balanced main loop over the lists as the taken arm left them
+        body = []
+        r = rng.random()
+        if r < 0.5:
+            body = [[13, 0, 0], [12, 0, 0]]
+            if rng.random() < 0.3:
+                body.reverse()
+        elif r < 0.8:
+            x = rng.choice([0, 1])
+            body = [[3, x, 61], [4, x, 61]]
+        x = rng.choice([0, 1])
+        y = x if rng.random() < 0.7 else rng.choice([0, 1])
+        # lengths at the read position: the body is balanced, a read between the two halves sees one element more / less
+        pos = rng.randint(0, len(body))
+        env = {z: list(v) for z, v in cur.items()}
+        for s_ in body[:pos]:
+            if s_[0] in (3, 12):
+                env[s_[1]].append(0)
+            else:
+                env[s_[1]].pop()
+        nx, ny = len(env[x]), len(env[y])
+        if nx == 0:
+            continue
+        target = rng.choice([nx - 1, 0, -1, -nx])
+        body.insert(pos, [14, x, y, 1, target - ny])
+        a = {"pre": pre, "arms": arms, "taken": taken, "form": form, "sel": rng.choice(["mode", "mode", "c0"]), "body": body,
+             "focus": bool(pairs) and taken < n_arms and any(j == taken for _, j in pairs)}
+        if form == "if-elif" and taken >= n_arms:
+            a["sel"] = "mode"
+        return arm_prog(a, N, pattern)
+    return None
+
+
+def emitted_arm_lens(cpp, prog):
+    """the lengths the real parser folded in the arms, read off the emitted setup(): one entry per [14] statement of every arm in
+    source order (-1: emitted as the run-time __redu_len) -> list per arm | None when the text has another shape"""
+    try:
+        body = cpp[cpp.index("void setup()"):cpp.index("void loop()")]
+    except ValueError:
+        return None
+    gets = []
+    for ln in body.splitlines():
+        i = ln.find("__redu_list_get(")
+        if i >= 0:
+            inner = ln[i + len("__redu_list_get("):]
+            inner = inner[inner.index(",") + 1:]
+            gets.append(inner)
+    out, it = [], iter(gets)
+    for arm in prog["arm"]["arms"]:
+        row = []
+        for s_ in arm:
+            if s_[0] not in (14, 5):
+                continue
+            idx = next(it, None)
+            if idx is None:
+                return None
+            if s_[0] == 5:
+                continue
+            if "__redu_len" in idx:
+                row.append(-1)
+                continue
+            ints = [int(v) for v in re.findall(r"(?<![\w.])-?\d+", idx)]
+            if not ints:
+                return None
+            if s_[3]:
+                row.append(ints[0])
+            else:
+                row.append(abs(ints[0]) if s_[4] == 0 else abs(ints[-1]))
+        out.append(row)
+    if next(it, None) is not None:
+        return None
+    return out
+
+
+def model_arm_lens(m, prog, which=4):
+    """the model's folded lengths restricted to the [14] statements (wire: one entry per statement)"""
+    out = []
+    for arm, row in zip(prog["arm"]["arms"], m[which]):
+        out.append([v for s_, v in zip(arm, row) if s_[0] == 14])
+    return out
+
+
 def classify_stderr(r) -> int | None | str:
     """class of the sanitizer report: 0 out-of-bounds (incl. null), 1 use-after-free, 2 double free; None = clean"""
     heaperr = any(e.startswith("HEAPERR") for e in r["events"])
@@ -1902,6 +2160,97 @@ def run(ctx: C.Ctx):
         if len(samples) < 3 and case["family"] in ("batch-in-guard-constant-live-data-gated", "single-outside", "single-index"):
             if not any(s["family"] == case["family"] for s in samples):
                 samples.append({"family": case["family"], "script": res["script"][:1800]})
+
+    # ---- sibling arms of one if / elif / else (try / except) statement (wire mode 3; one sketch per program)
+    arm_st = {"programs": 0, "forms": {}, "taken_arm": {}, "focus_programs": 0, "arms_compared": 0, "folded_reads": 0, "runtime_reads": 0,
+              "in_guard_py_ok": 0, "outside_guard": 0, "selector": {}, "earlier_arm_stmt_kinds": {}}
+    arm_progs = []
+    n_arm = 160 if thorough else 26
+    for i in range(n_arm):
+        form = ARM_FORMS[i % len(ARM_FORMS)]
+        ap = gen_arm_part(rng, N, GPATTERNS[i % len(GPATTERNS)], form=form, focus=(i % 4 != 3))
+        if ap:
+            arm_progs.append(ap)
+    arm_res = run_all(arm_progs) if arm_progs else []
+    arm_models = ctx.model([arm_wire(p_) for p_ in arm_progs]) if (have_model and arm_progs) else [None] * len(arm_progs)
+    for prog, res, m in zip(arm_progs, arm_res, arm_models):
+        a = prog["arm"]
+        arm_st["programs"] += 1
+        arm_st["forms"][a["form"]] = arm_st["forms"].get(a["form"], 0) + 1
+        arm_st["taken_arm"][str(a["taken"])] = arm_st["taken_arm"].get(str(a["taken"]), 0) + 1
+        arm_st["selector"][a["sel"]] = arm_st["selector"].get(a["sel"], 0) + 1
+        arm_st["focus_programs"] += bool(a.get("focus"))
+        for arm in a["arms"][:-1]:
+            for s_ in arm:
+                arm_st["earlier_arm_stmt_kinds"][str(s_[0])] = arm_st["earlier_arm_stmt_kinds"].get(str(s_[0]), 0) + 1
+        info = {"script": res["script"], "program": {k_: v_ for k_, v_ in prog.items() if k_ != "kind"}, "loops": prog["N"]}
+        py = res["py"]
+        mv = model_verdict(m) if m is not None else None
+        if m is not None and mv is None:
+            ctx.disagree("wire: the model could not decode an arm program", info, "decoded", m)
+        in_guard = mv[0] if mv is not None else True       # by construction when the model is not available
+        if not res["tr"].get("ok"):
+            if in_guard:
+                ctx.disagree("a list script with an if / try statement in front of the main loop was rejected by the transpiler: "
+                             + str(res["tr"].get("exc")) + ": " + str(res["tr"].get("msg")), info, "accepted", res["tr"])
+            continue
+        r = res["fw"]
+        if not r["compiled"]:
+            ctx.disagree("emitted C++ of a generated list script does not compile", info, "compiles", r["compile_log"][-800:])
+            continue
+        cls = classify_stderr(r)
+        ph = fw_phases(r["events"]) if cls is None else []
+        # correspondence 1: what the real parser folded in EVERY arm (taken or not) vs the model's arms
+        em = emitted_arm_lens(res["tr"]["cpp"], prog)
+        if mv is not None:
+            ml = model_arm_lens(m, prog, 4)
+            arm_st["arms_compared"] += len(ml)
+            arm_st["folded_reads"] += sum(1 for row in ml for v in row if v >= 0)
+            arm_st["runtime_reads"] += sum(1 for row in ml for v in row if v < 0)
+            if em is None:
+                ctx.disagree("the emitted setup() of an arm program has another shape than one __redu_list_get per read", info, ml, None)
+            elif em != ml:
+                ctx.disagree("lengths folded in the arms of one if / try statement: model (every arm from the snapshot in front of the statement, "
+                             "independently) vs the emitted C++", info, ml, em)
+            # correspondence 2: CPython reference
+            mf, mferr, mp, mperr = mv[1], mv[2], mv[3], mv[4]
+            pyp = py.get("phases", [])
+            real_exc = next((q["exc"] for q in pyp if "exc" in q), None)
+            if (mperr is None) != (real_exc is None) or (mperr is not None and EXC_CODE.get(real_exc) != mperr):
+                ctx.disagree("CPython reference of an arm program: exception differs (model vs real CPython)", info, mperr, real_exc)
+            elif mperr is None:
+                for k, (a_, b_) in enumerate(zip(mp, pyp)):
+                    ints = [x for x in b_["out"] if isinstance(x, int)]
+                    if a_[0] != ints or a_[1] != b_["live"]:
+                        ctx.disagree(f"CPython reference of an arm program, phase {k}: printed values / live data differ (model of the taken path vs real CPython)",
+                                     info, [a_[0], a_[1]], [ints, b_["live"]])
+                        break
+            # correspondence 3: firmware run of the taken path
+            if mferr is None and cls is None and len(ph) == len(mf):
+                for k, (a_, b_) in enumerate(zip(mf, ph)):
+                    st["phases_compared"] += 1
+                    if a_[0] != b_[0] or a_[1] != b_[1] or a_[2] * ELEM != b_[2]:
+                        ctx.disagree(f"arm program, phase {k}: printed values / live heap differ (model of the taken path vs firmware)", info,
+                                     [a_[0], a_[1], a_[2]], [b_[0], b_[1], b_[2]])
+                        break
+            elif mferr is None and cls is not None:
+                ctx.disagree(f"model: the firmware run of the taken path is memory-safe; real firmware: sanitizer report ({KIND_NAMES.get(cls, cls)})",
+                             info, "safe", {"class": cls, "stderr": r["stderr"][-600:]})
+        # property oracle: inside len_ok of the taken path, CPython exception-free => clean under ASan/UBSan, constant heap
+        if in_guard and py_ok(py, prog["N"]):
+            arm_st["in_guard_py_ok"] += 1
+            st["in_guard_py_ok"] += 1
+            evaluations += prog["N"] + 1
+            for key, what, exp, obs in oracle(prog, res, leak=True):
+                taken_txt = f"arm {a['taken']} of the {a['form']} statement is the one taken"
+                ctx.fail(what + " [" + taken_txt + "; folded in the arms: " + json.dumps(em) + "]", info, exp, obs, key="arm-" + key)
+        else:
+            arm_st["outside_guard"] += 1
+            evaluations += 1
+        distinct.add(json.dumps([a["pre"], a["arms"], a["taken"], a["body"]]))
+        if len(samples) < 4 and a.get("focus") and not any(s_.get("family") == "arm" for s_ in samples):
+            samples.append({"family": "arm", "script": res["script"][:1800]})
+    st["arms"] = arm_st
 
     # ---- known findings: replay every listed witness on the real transpiler + firmware
     for f in load_findings(ctx):
